@@ -113,6 +113,8 @@ class Harness:
         if z3.is_true(goal_s):
             ob.status, ob.detail = 'unsat', 'syntactic'
             ob.res = {'result': 'unsat', 'strategy': 'simplify', 'time': 0.0}
+        elif self._concrete_point_refutes(ob, goal):
+            pass
         else:
             ob.fut = self.pool.submit(_solve.solve, _smt2(hyps, ob.neg), timeout, True, strategies)
         self.obs.append(ob)
@@ -168,6 +170,38 @@ class Harness:
         d = l - r
         return self.prove(name, hyps, l == r, replay=replay, key=key, timeout=timeout,
                           neg_margin=z3.Or(d > z3.RealVal('1/1000'), d < -z3.RealVal('1/1000')))
+
+    def _concrete_point_refutes(self, ob, goal):
+        """fast path for counterexamples: an equality goal whose two sides already differ numerically at the concrete point the
+        current path was executed on is handed to the replay at that point; a confirmed difference is a violation without waiting
+        for the solver.  (Never used to discharge anything.)  One attempt per finding key and path."""
+        ctx = getattr(self, 'cur_ctx', None)
+        if ctx is None or ob.replay is None or not z3.is_eq(goal) or ctx.deviated:
+            return False
+        l, r = goal.children()
+        if not (z3.is_real(l) or z3.is_int(l)):
+            return False
+        tried = self.__dict__.setdefault('_cp_tried', set())
+        if (ob.key, id(ctx)) in tried:
+            return False
+        from .terms import evalf
+        try:
+            cache = self.__dict__.setdefault('_cp_cache', {}).setdefault(id(ctx), {})
+            a, b = evalf(l, ctx.env, ctx.tfvar, cache), evalf(r, ctx.env, ctx.tfvar, cache)
+        except Exception:
+            return False
+        if not (a == a and b == b) or abs(a - b) <= 1e-6 * (1 + abs(b)):
+            return False
+        tried.add((ob.key, id(ctx)))
+        ob.res = {'result': 'sat', 'strategy': 'concrete point of the run', 'time': 0.0, 'model': dict(ctx.env)}
+        ob.status = 'sat'
+        nm, ob.neg_margin = ob.neg_margin, None
+        self._handle_sat(ob)
+        ob.neg_margin = nm
+        if ob.status == 'violation':
+            return True
+        ob.status, ob.res, ob.detail = 'pending', None, ''
+        return False
 
     def prove_eqs(self, name, hyps, lhs, rhs, **kw):
         """componentwise equality obligations; neg_margin asks for a witness with visible margin"""
